@@ -172,9 +172,9 @@ kind_harness!(c14_kind_pawn_4, 0, 4, 6); kind_harness!(c14_kind_knight_4, 1, 4, 
 /// piece census a position can have): pure (independent of the evaluator's previous state),
 /// exact negation under side-to-move swap, and |score| < 20000 < 32767.
 pub static mut CONTRIB: [(i32, i32, i32); 6] = [(0, 0, 0); 6];
-pub struct EvState { pub magic: u64, pub stub_calls: u32 }
+pub struct EvState { pub magic: u64, pub stub_calls: u32, pub native_stub: bool }
 /// (struct with a sentinel field: Kani 0.68 was seen to share a zero-initialised pub static scalar with a constant)
-pub static mut EVS: EvState = EvState { magic: 0x5EED_E7A1_0BAD_F00D, stub_calls: 0 };
+pub static mut EVS: EvState = EvState { magic: 0x5EED_E7A1_0BAD_F00D, stub_calls: 0, native_stub: false };
 fn any_census_contrib() {
     // counts per side and kind; a side has one king, at most 8 pawns and at most 15 non-king men,
     // and officers beyond the initial 2/2/2/1 come from promoted pawns
@@ -208,7 +208,7 @@ fn any_census_contrib() {
 #[cfg_attr(kani, kani::unwind(8))]
 #[cfg_attr(kani, kani::stub(crate::eval::Evaluator::eval_piece_type, crate::eval::vh::stub_eval_piece_type))]
 pub fn c14_compose() {
-    if sym::native() { return; } // composition lemma exists only under the stub; natively the real evaluate is exercised by c14_whole_*men
+    unsafe { EVS.native_stub = true; }   // native replay: the patched copy of eval.rs dispatches eval_piece_type to the same model
     any_census_contrib();
     let mut wb = Board::default(); wb.active_color = Color::White;
     let mut bb = wb; bb.active_color = Color::Black;
@@ -224,6 +224,7 @@ pub fn c14_compose() {
     vassert!(s1 > -20000 && s1 < 20000, "C14: static score outside +-20000 (must stay well inside the +-32767 window)");
     let s4 = e1.evaluate(&wb);
     vassert!(s4 == s1, "C14: repeated evaluation gives a different score");
+    unsafe { EVS.native_stub = false; }
     vcover!(s1 > 9000, "queens-heavy census reaches a large score");
     vcover!(s1 == 0, "balanced");
 }
